@@ -252,7 +252,7 @@ impl Polygon3D {
         for _i in 0..n_inner_loops {
             // find the minimum distance
             // from interior to exterior
-            let mut min_distance = 9E14;
+            let mut min_distance = Float::MAX;
             let mut min_inner_loop_id = 0;
             let mut min_ext_vertex_id = 0;
             //let mut min_int_vertex_id = 0;
